@@ -655,6 +655,15 @@ def placeOf (variant : String) (i : Nat) : Ref :=
   | "map" => .idx (.named "M") (.s s!"k{i}")
   | "mapi" => .idx (.named "M") (.i i)
   | "arr" => .idx (.named "A") (.i (i + 1))
+  | "gmap" => .idx (.gbl 0) (.s s!"k{i}")        -- element of a map held by a @global      (eval_gblidx)
+  | "lmap" => .idx (.lcl 0) (.s s!"k{i}")        -- ... by a @local                         (eval_lclidx)
+  | "amap" => .idx (.arg 0) (.s s!"k{i}")        -- ... by a parameter                      (eval_argidx)
+  -- by-reference parameters whose arguments are map elements / array elements / globals / locals / parameters
+  | "refm" => .idx (.named "M") (.s s!"k{i}")
+  | "refa" => .idx (.named "A") (.i (i + 1))
+  | "refg" => .plain (.gbl i)
+  | "refl" => .plain (.lcl i)
+  | "refp" => .plain (.arg i)
   | _ => .plain (.named s!"v{i}")      -- named, ref (caller side), lit (assignment targets)
 
 def emptyEnv : Env XF :=
@@ -663,7 +672,7 @@ def emptyEnv : Env XF :=
 /-- initial environment: every slot with a non-nil value is assigned (nil slots stay untouched/absent);
 array variants start from `hawk::array()` -/
 def initEnv (X : Ext XF) (variant : String) (vals : List (Val XF)) (only : Nat → Bool) : Env XF :=
-  let e0 : Env XF := if variant == "arr" then emptyEnv.setTop (.named "A") (.arr (fun _ => none)) else emptyEnv
+  let e0 : Env XF := if variant == "arr" || variant == "refa" then emptyEnv.setTop (.named "A") (.arr (fun _ => none)) else emptyEnv
   let rec go (i : Nat) (l : List (Val XF)) (e : Env XF) : Env XF :=
     match l with
     | [] => e
@@ -721,7 +730,7 @@ def runCase (salt : Nat) (variant : String) (p : Parsed) : String :=
       match eval X (envStorage X) (e2.map (placeOf variant)) env with
       | .error er => errCode er
       | .ok (v, env') => showVal v ++ "|" ++ slotsOut env' false
-  else if variant == "ref" then
+  else if variant.startsWith "ref" then
     let env := initEnv X variant p.vals (fun _ => true)
     match evalCallByRef X ((List.range n).map (placeOf variant)) (p.e.map argπ) env with
     | .error er => errCode er
